@@ -1,0 +1,40 @@
+// SPDX-FileCopyrightText: 2023 The Pion community <https://pion.ly>
+// SPDX-License-Identifier: MIT
+
+//go:build verif
+
+package rtp
+
+import "time"
+
+// Verification-only accessors (build tag verif). They add no behaviour to normal builds.
+
+// VerifSetPacketizerClock replaces the packetizer's time source.
+func VerifSetPacketizerClock(p Packetizer, f func() time.Time) bool {
+	pp, ok := p.(*packetizer)
+	if ok {
+		pp.timegen = f
+	}
+
+	return ok
+}
+
+// VerifPacketizerTimestamp reads the packetizer's current RTP timestamp.
+func VerifPacketizerTimestamp(p Packetizer) (uint32, bool) {
+	pp, ok := p.(*packetizer)
+	if !ok {
+		return 0, false
+	}
+
+	return pp.Timestamp, true
+}
+
+// VerifSetPacketizerTimestamp sets the packetizer's current RTP timestamp.
+func VerifSetPacketizerTimestamp(p Packetizer, ts uint32) bool {
+	pp, ok := p.(*packetizer)
+	if ok {
+		pp.Timestamp = ts
+	}
+
+	return ok
+}
